@@ -1,10 +1,13 @@
 package props
 
 import (
+	"context"
 	"fmt"
 	"sort"
 	"strings"
 
+	wire "github.com/jeroenrinzema/psql-wire"
+	"github.com/lib/pq/oid"
 	"verif/engine/explore"
 	"verif/engine/harness"
 	"verif/engine/memnet"
@@ -319,7 +322,7 @@ func init() {
 		ID:        "C07",
 		Level:     "model_checking",
 		Technique: "exhaustive enumeration of Parse/Bind/Describe/Execute/Close/Sync histories over a pool of colliding names on a real server (single connection: vs. a set-valued name-resolution model; two connections: differential against each connection's projection served alone)",
-		Rule:      "single: all histories of length <= d over 23 letters (names \"\"/a, portals \"\"/x, two distinguishable statements, two parameter/format variants); two connections: all interleaved histories of length <= d2 over 2 x 6 letters using the same names; distinct = distinct histories",
+		Rule:      "single: all histories of length <= d over 23 letters (names \"\"/a, portals \"\"/x, two distinguishable statements, two parameter/format variants); portal re-binding: every ordered pair of ~50 Bind shapes (statement of 1 / 2 columns, 0-3 parameters, 0 / 1 / per-item parameter codes, 0 / 1 / per-column result codes) on the unnamed and a named portal, differential against a connection where only the second Bind happened; two connections: all interleaved histories of length <= d2 over 2 x 6 letters using the same names; distinct = distinct histories",
 		Assumptions: []string{
 			"not asserted: fate of a portal whose statement was closed (old statement or error, never a different one); whether portals survive Sync; the error-cycle discipline after an error (owned by C06: model forks on skipping and optional ReadyForQuery)",
 			"finer-than-message interleavings of two connections are explored by the C15 scheduler scenarios",
@@ -329,7 +332,7 @@ func init() {
 			a, b := c07Depth(tier)
 			return map[string]any{"single_connection_depth": a, "two_connection_depth": b, "letters": 23}
 		},
-		RequiredOutcomes: []string{"rebind-after-reparse", "closed-name-unresolvable", "plain", "two-conn"},
+		RequiredOutcomes: []string{"rebind-after-reparse", "closed-name-unresolvable", "plain", "two-conn", "portal-rebound"},
 	})
 }
 
@@ -525,7 +528,133 @@ func c07RunTwo(order []twoStep) explore.Result {
 	return res
 }
 
+// ---- re-binding a portal name with a differently shaped Bind -----------------------------------
+//
+// "Re-using a portal name replaces the earlier definition": whatever was bound to the name before (more
+// parameters, more format codes, another statement), the outcome of Bind B + Describe + Execute is the outcome
+// on a connection where the earlier Bind never happened.
+
+type c07Shape struct {
+	Stmt   string // "s1" (2 columns) or "s2" (1 column)
+	Params int
+	PF     int // number of parameter format codes: 0, 1 or Params (all binary)
+	RF     int // number of result format codes: 0, 1 or one per column (all binary)
+}
+
+func (b c07Shape) String() string {
+	return fmt.Sprintf("%s params=%d param_codes=%d result_codes=%d", b.Stmt, b.Params, b.PF, b.RF)
+}
+
+func (b c07Shape) bind(portal string, tag string) []byte {
+	vals := make([][]byte, b.Params)
+	for i := range vals {
+		vals[i] = []byte(fmt.Sprintf("%s%d", tag, i))
+	}
+	pf := make([]int16, b.PF)
+	for i := range pf {
+		pf[i] = 1
+	}
+	rf := make([]int16, b.RF)
+	for i := range rf {
+		rf[i] = 1
+	}
+	return pgproto.Bind(portal, b.Stmt, pf, vals, rf)
+}
+
+func c07Shapes() []c07Shape {
+	var out []c07Shape
+	for _, st := range []string{"s1", "s2"} {
+		cols := map[string]int{"s1": 2, "s2": 1}[st]
+		for params := 0; params <= 3; params++ {
+			for _, pf := range []int{0, 1, params} {
+				if pf > params && pf != 1 || (pf == params && params <= 1 && pf != 0 && pf != 1) {
+					continue
+				}
+				for _, rf := range []int{0, 1, cols} {
+					out = append(out, c07Shape{st, params, pf, rf})
+				}
+			}
+		}
+	}
+	// de-duplicate (pf == 1 == params, rf == 1 == cols)
+	seen := map[c07Shape]bool{}
+	var uniq []c07Shape
+	for _, b := range out {
+		if !seen[b] {
+			seen[b] = true
+			uniq = append(uniq, b)
+		}
+	}
+	return uniq
+}
+
+func c07ServeRebind(portal string, binds []c07Shape) (string, string) {
+	var trace []string
+	parse := func(ctx context.Context, q string) (wire.PreparedStatements, error) {
+		cols := wire.Columns{{Name: "a", Oid: oid.T_int4}, {Name: "b", Oid: oid.T_int4}}
+		if q == "one" {
+			cols = cols[:1]
+		}
+		return wire.Prepared(wire.NewStatement(func(ctx context.Context, w wire.DataWriter, params []wire.Parameter) error {
+			var ps []string
+			for _, p := range params {
+				ps = append(ps, fmt.Sprintf("%q/%d", p.Value(), p.Format()))
+			}
+			trace = append(trace, fmt.Sprintf("stmt %s params=%v", q, ps))
+			row := []any{int32(258), int32(259)}
+			if err := w.Row(row[:len(cols)]); err != nil {
+				return err
+			}
+			return w.Complete("SELECT 1")
+		}, wire.WithColumns(cols))), nil
+	}
+	one, err := harness.StartOne(parse)
+	if err != nil {
+		return "", "engine: " + err.Error()
+	}
+	defer one.Stop()
+	one.Step(pgproto.Startup("user", "u"))
+	one.Step(pgproto.Cat(pgproto.Parse("s1", "two"), pgproto.Parse("s2", "one"), pgproto.Sync()))
+	for i, b := range binds[:len(binds)-1] {
+		one.Step(pgproto.Cat(b.bind(portal, fmt.Sprintf("old%d-", i)), pgproto.Sync()))
+	}
+	trace = nil
+	out, _ := one.Step(pgproto.Cat(binds[len(binds)-1].bind(portal, "new-"), pgproto.Describe('P', portal), pgproto.Execute(portal, 0), pgproto.Sync()))
+	t, _ := harness.CanonTranscript(out)
+	return strings.Join(t, " "), strings.Join(trace, "; ")
+}
+
+func c07RunRebind(portal string, earlier []c07Shape, last c07Shape) explore.Result {
+	var res explore.Result
+	res.Outcome = "portal-rebound"
+	res.Key = fmt.Sprint("rebind", portal, earlier, last)
+	gotT, gotC := c07ServeRebind(portal, append(append([]c07Shape(nil), earlier...), last))
+	wantT, wantC := c07ServeRebind(portal, []c07Shape{last})
+	if strings.HasPrefix(gotC, "engine:") || strings.HasPrefix(wantC, "engine:") {
+		res.Engine = gotC + wantC
+		return res
+	}
+	if gotT != wantT || gotC != wantC {
+		res.Fail("portal-rebind-keeps-earlier-definition", fmt.Sprintf("portal %q bound with %v, then with [%s]: Describe + Execute gave\n  %s | %s\nbut on a connection where only the last Bind happened\n  %s | %s", portal, earlier, last, gotT, gotC, wantT, wantC))
+	}
+	res.Trans = []string{fmt.Sprintf("bound(%d params)|rebind(%d params)|bound", earlier[len(earlier)-1].Params, last.Params)}
+	return res
+}
+
 func c07Enumerate(tier string, emit explore.Emit) {
+	shapes := c07Shapes()
+	for _, portal := range []string{"", "x"} {
+		for _, a := range shapes {
+			for _, b := range shapes {
+				portal, a, b := portal, a, b
+				emit(explore.Case{Family: "portal-rebind", Size: 50,
+					Desc: func() any {
+						return map[string]any{"portal": portal, "first_bind": a.String(), "second_bind": b.String()}
+					},
+					Run: func() explore.Result { return c07RunRebind(portal, []c07Shape{a}, b) }})
+			}
+		}
+	}
 	alpha := c07Alphabet()
 	d1, d2 := c07Depth(tier)
 	forShapes(len(alpha), d1, func(sh []int) {
